@@ -20,6 +20,8 @@ type Profile struct {
 	Faults                 bool // link down/up, restart-empty
 	Transient              bool // transient error bursts
 	Standby                bool // additional (standby) connections and loss of the master only
+	FaultInSync            bool // connection loss / device restart armed for the moment of a re-synchronisation
+	Pace                   bool // under a drawn schedule some actions wait until everything earlier has settled
 	Crashes                int  // max crashes
 	Rollbacks              bool
 	Sync                   bool // some Sets are synchronous
@@ -99,6 +101,18 @@ func genScenario(rt *rapid.T, p Profile) Scenario {
 				if rapid.IntRange(0, 1).Draw(rt, "dropmaster") == 1 {
 					sc.Actions = append(sc.Actions, Action{Kind: "masterdown", Target: t})
 				}
+			}
+		}
+		if p.FaultInSync && rapid.IntRange(0, 3).Draw(rt, "faultinsync") == 0 {
+			t := ids[rapid.IntRange(0, len(ids)-1).Draw(rt, "fistarget")]
+			kind := []string{"flapinsync", "restartinsync"}[rapid.IntRange(0, 1).Draw(rt, "fiskind")]
+			// armed now, fired by the next re-synchronisation: make one happen
+			sc.Actions = append(sc.Actions, Action{Kind: kind, Target: t, Idle: true})
+			if online[t] {
+				sc.Actions = append(sc.Actions, Action{Kind: "linkdown", Target: t}, Action{Kind: "linkup", Target: t})
+			} else {
+				sc.Actions = append(sc.Actions, Action{Kind: "linkup", Target: t})
+				online[t] = true
 			}
 		}
 		if p.Transient && rapid.IntRange(0, 3).Draw(rt, "transient") == 0 {
@@ -200,6 +214,9 @@ func genScenario(rt *rapid.T, p Profile) Scenario {
 	if crashes < p.Crashes && rapid.IntRange(0, 3).Draw(rt, "lastcrash") == 0 {
 		sc.Actions = append(sc.Actions, Action{Kind: "crash"})
 	}
+	if p.Pace && sc.Drawn {
+		paceActions(rt, &sc)
+	}
 	return sc
 }
 
@@ -222,4 +239,14 @@ func describeScenario(sc Scenario) map[string]any {
 		mode = "pre-emptive"
 	}
 	return map[string]any{"targets": tg, "mode": mode, "drawn_schedule": sc.Drawn, "actions": acts}
+}
+
+// paceActions makes about a third of the actions wait until everything earlier has settled: without pacing
+// nearly all actions of a drawn schedule are performed before the first change is applied.
+func paceActions(rt *rapid.T, sc *Scenario) {
+	for i := range sc.Actions {
+		if rapid.IntRange(0, 2).Draw(rt, "idle") == 0 {
+			sc.Actions[i].Idle = true
+		}
+	}
 }
